@@ -477,3 +477,22 @@ Proof.
     simpl in F. rewrite F by (try rewrite upd_length; auto; lia). apply nth_upd_eq; auto.
   - unfold a_advance; simpl; destruct (tP (sdet a)); reflexivity.
 Qed.
+
+(** the usual loop body [let n = it.available(); unsafe { it.advance(n) }] (history lines [avail K], [adv K =n]): whatever number the
+    Model's [available()] answers, advancing by it respects rule K1, and the two steps together refine the Spec - for every stage,
+    attached or detached, in every reachable state *)
+Theorem avail_then_advance m a k n : Rel m a ->
+  fst (snd (step m (Avail k))) = ONum n ->
+  n = a_avail k a /\
+  ok_op (fst (sstep a (Avail k))) (Advance k n) = true /\
+  refines (step (fst (step m (Avail k))) (Advance k n)) (sstep (fst (sstep a (Avail k))) (Advance k n)).
+Proof.
+  intros R H. pose proof (step_refines m a (Avail k) R eq_refl) as [E R1].
+  rewrite E in H.
+  assert (S : sstep a (Avail k) = a_ret a (ONum (a_avail k a)) \/ sstep a (Avail k) = a_bad a)
+    by (cbn [sstep]; destruct (a_usable k a); auto).
+  destruct S as [S|S]; rewrite S in H, R1 |- *; cbn [a_ret a_bad fst snd] in H, R1 |- *; [| discriminate H].
+  injection H as H. subst n. split; [reflexivity|].
+  assert (OK : ok_op a (Advance k (a_avail k a)) = true) by (cbn [ok_op]; apply Nat.leb_refl).
+  split; [exact OK|]. apply (step_refines _ a _ R1 OK).
+Qed.
